@@ -454,6 +454,14 @@ def run_case_here(case, outpath, scratch):
                                               "active_children": [c.name for c in multiprocessing.active_children()]})
         state["phase"] = "done"
 
+    if case.get("kind", "pool") != "pool":
+        other = DRIVERS[case["kind"]]
+
+        def drive():  # noqa: F811
+            state["driver_ident"] = threading.get_ident()
+            other(case, sh, state)
+            state["phase"] = "done"
+
     if case.get("side_thread"):
         # fault runs: the consumer may legitimately hang (a raising functor never delivers its chunk); it runs in
         # a side thread and the run ends when it finishes or when the tree is quiescent
@@ -464,6 +472,84 @@ def run_case_here(case, outpath, scratch):
     else:
         _guard(drive, finish)
         finish("completed")
+
+
+_fork_counter = [0]
+
+
+def _label_forked_children():
+    """Processes forked by the code under test (FunctorMap / mul_p_map workers) get their own role and counters."""
+    def before():
+        _fork_counter[0] += 1
+
+    def in_child():
+        instr.reset_for_child(f"worker{_fork_counter[0] - 1}")
+    os.register_at_fork(before=before, after_in_child=in_child)
+
+
+def _simple_functor(sh):
+    def f(x):
+        call, idx, dur = x
+        sh.log("item", call=call, idx=idx)
+        if dur:
+            sh.nap(dur)
+        return (call, idx)
+    return f
+
+
+def drive_fmap(case, sh, state):
+    from windpyutils.parallel.pools import FunctorMap
+    _label_forked_children()
+    state["phase"] = "pool_enter"
+    with FunctorMap(_simple_functor(sh), case["workers"]) as m:
+        for ci, call in enumerate(case["calls"]):
+            state["phase"] = "call"
+            state["call"] = ci
+            rec = {"yields": [], "completed": False, "exception": None}
+            state["calls"].append(rec)
+            sh.log("call_start", call=ci)
+            try:
+                for y in m(make_input(call, ci, sh), call["chunk"]):
+                    rec["yields"].append(y)
+                rec["completed"] = True
+            except instr.InjectedFault:
+                raise
+            except Exception as e:
+                rec["exception"] = f"{type(e).__name__}: {e}"
+                rec["traceback"] = traceback.format_exc()[-1500:]
+                break
+            sh.log("call_end", call=ci)
+        state["phase"] = "pool_exit"
+    sh.log("pool_exit_return")
+
+
+def drive_mulpmap(case, sh, state):
+    from windpyutils.parallel.maps import mul_p_map
+    _label_forked_children()
+    f = _simple_functor(sh)
+    for ci, call in enumerate(case["calls"]):
+        state["phase"] = "call"
+        state["call"] = ci
+        rec = {"yields": [], "completed": False, "exception": None}
+        state["calls"].append(rec)
+        sh.log("call_start", call=ci)
+        try:
+            out = mul_p_map(f, make_input(call, ci, sh), case["workers"])
+            if not isinstance(out, list):
+                rec["exception"] = f"mul_p_map returned {type(out).__name__}, not a list"
+                break
+            rec["yields"] = out
+            rec["completed"] = True
+        except instr.InjectedFault:
+            raise
+        except Exception as e:
+            rec["exception"] = f"{type(e).__name__}: {e}"
+            rec["traceback"] = traceback.format_exc()[-1500:]
+            break
+        sh.log("call_end", call=ci)
+
+
+DRIVERS = {"fmap": drive_fmap, "mulpmap": drive_mulpmap}
 
 
 def _guard(fn, finish):
@@ -703,11 +789,11 @@ def sweep_sites(dry_result, prefixes):
     return sorted(sites)
 
 
-def worker_sites():
-    """Statements of BaseFunctorWorker.run (executed in worker processes; not visible in the parent's counters)."""
+def worker_sites(qualnames=("BaseFunctorWorker.run",)):
+    """Statements of the worker loops (executed in worker processes; not visible in the parent's counters)."""
     out = []
     for co, (qn, first, fn) in instr.S.codes.items():
-        if qn == "BaseFunctorWorker.run":
+        if qn in qualnames:
             lines = sorted({ln for _, _, ln in co.co_lines() if ln})
             for ln in lines:
                 if ln != first:
